@@ -90,6 +90,114 @@ Qed.
 
 End GenIsModel.
 
+(* ---------------------------------------------------------------- digit removal: Context::repr_round(_ref), with_precision *)
+
+Section GenRound.
+Variable B : Z.
+Variable rf : mode -> Z -> Z -> Z -> rounding.
+Notation rfchk := (round_fract_chk_rf B rf).
+
+(** Context::repr_round as regenerated (finiteness assertion inside, Repr::new on the rounded significand) is the model
+    RoundOpsDeep.repr_round_rf behind assert_finite and norm_approx; repr_round_ref is the same function *)
+Theorem repr_round_gen_is_model p m s e :
+  repr_round_gen B rfchk p m s e = assert_finite s e (rmap (norm_approx B) (repr_round_rf B rf p m s e)) /\
+  repr_round_ref_gen B rfchk p m s e = repr_round_gen B rfchk p m s e.
+Proof.
+  split; [|reflexivity].
+  unfold repr_round_gen, repr_round_rf, assert_finite, rmap. destruct (is_inf s e); [reflexivity|].
+  rewrite Bool.negb_involutive. destruct (p =? 0); [reflexivity|]. rewrite Z.gtb_ltb.
+  destruct (p <? dlen B s); [|reflexivity].
+  destruct (split_digits B s (dlen B s - p)) as [hi lo].
+  destruct (round_fract_chk_rf B rf m hi lo (dlen B s - p)); cbn [rbind]; try reflexivity.
+  unfold ainexact_se, norm_approx. destruct (normalize B (hi + adj a) (e + (dlen B s - p))). reflexivity.
+Qed.
+
+(** FBig::with_precision: the regenerated condition under which it rounds, then the regenerated repr_round *)
+Theorem with_precision_gen_is_model m p s e np :
+  (if with_precision_rounds_gen p np then repr_round_gen B rfchk np m s e else Ok (AExact s e)) =
+  with_precision_full B rf m p s e np.
+Proof.
+  unfold with_precision_rounds_gen, with_precision_full. rewrite Bool.negb_involutive, <- Z.gtb_ltb.
+  destruct ((p =? 0) || (p >? np)); [apply repr_round_gen_is_model | reflexivity].
+Qed.
+End GenRound.
+
+(* ---------------------------------------------------------------- the precision attached to the results *)
+
+(** documented at FBig::round: an integer keeps its precision, otherwise the digits after the radix point are subtracted
+    (saturating); the shortcut constants 0, 1, -1 carry the precision 0 *)
+Definition prec_int_ok (p e : Z) (f : fl) : Prop :=
+  if 0 <=? e then snd f = p else (snd f = sat_sub p (- e) \/ snd f = 0).
+
+Section Precisions.
+Variable B : Z.
+Variable dub : Z -> Z.
+Variable rf : mode -> Z -> Z -> Z -> rounding.
+
+Lemma split_internal_k p s e : snd (split_internal B dub false p s e) = - e.
+Proof.
+  unfold split_internal. destruct (smaller_than_one dub s e); [reflexivity|]. destruct (split_digits B s (- e)); reflexivity.
+Qed.
+
+Lemma prec_int_neg p e f : e < 0 -> (snd f = sat_sub p (- e) \/ snd f = 0) -> prec_int_ok p e f.
+Proof. intros He H. unfold prec_int_ok. destruct (Z.leb_spec 0 e); [lia | exact H]. Qed.
+
+Lemma prec_int_nonneg p e f : 0 <= e -> snd f = p -> prec_int_ok p e f.
+Proof. intros He H. unfold prec_int_ok. destruct (Z.leb_spec 0 e); [exact H | lia]. Qed.
+
+Lemma round_to_prec m p s e f : e < 0 -> round_to_rf B dub rf m p s e = Ok f -> prec_int_ok p e f.
+Proof.
+  intros He. unfold round_to_rf. pose proof (split_internal_k p s e) as K.
+  destruct (split_internal B dub false p s e) as [[hi lo] k]. cbn [snd] in K. subst k.
+  destruct (round_fract_chk_rf B rf m hi lo (- e)); cbn [rbind]; try discriminate.
+  intros E. injection E as <-. apply prec_int_neg; [exact He | left; reflexivity].
+Qed.
+
+Theorem entry_precisions p s e :
+  (forall f, trunc_full B dub p s e = Ok f -> prec_int_ok p e f) /\
+  (forall f, floor_full B dub rf p s e = Ok f -> prec_int_ok p e f) /\
+  (forall f, ceil_full B dub rf p s e = Ok f -> prec_int_ok p e f) /\
+  (forall f, round_full B dub rf p s e = Ok f -> prec_int_ok p e f) /\
+  (forall f, fract_full B dub p s e = Ok f -> snd f = if 0 <=? e then 0 else - e) /\
+  (forall t f, split_full B dub p s e = Ok (t, f) ->
+     prec_int_ok p e t /\ (if 0 <=? e then snd f = 0 else (snd f = - e \/ snd f = p))).
+Proof.
+  unfold trunc_full, floor_full, ceil_full, round_full, fract_full, split_full, assert_finite.
+  destruct (is_inf s e) eqn:Inf; [repeat split; intros; discriminate|].
+  assert (Z0 : s = 0 -> e = 0).
+  { intros ->. unfold is_inf in Inf. destruct (Z.eqb_spec e 0); [assumption | discriminate Inf]. }
+  split; [|split; [|split; [|split; [|split]]]].
+  - intros f E. injection E as <-. unfold trunc_asis. destruct (Z.leb_spec 0 e) as [He|He].
+    + apply prec_int_nonneg; [exact He | reflexivity].
+    + apply prec_int_neg; [exact He|]. destruct (smaller_than_one dub s e); [right; reflexivity | left; reflexivity].
+  - intros f. unfold floor_rf. destruct (Z.leb_spec 0 e) as [He|He].
+    + intros E. injection E as <-. apply prec_int_nonneg; [exact He | reflexivity].
+    + destruct (smaller_than_one dub s e).
+      * intros E. injection E as <-. apply prec_int_neg; [exact He|]. right. destruct (0 <=? s); reflexivity.
+      * apply round_to_prec. exact He.
+  - intros f. unfold ceil_rf. destruct (Z.eqb_spec s 0) as [Hs|Hs]; cbn [orb].
+    + intros E. injection E as <-. apply prec_int_nonneg; [rewrite (Z0 Hs); lia | reflexivity].
+    + destruct (Z.leb_spec 0 e) as [He|He].
+      * intros E. injection E as <-. apply prec_int_nonneg; [exact He | reflexivity].
+      * destruct (smaller_than_one dub s e).
+        -- intros E. injection E as <-. apply prec_int_neg; [exact He|]. right. destruct (0 <=? s); reflexivity.
+        -- apply round_to_prec. exact He.
+  - intros f. unfold round_rf. destruct (Z.leb_spec 0 e) as [He|He].
+    + intros E. injection E as <-. apply prec_int_nonneg; [exact He | reflexivity].
+    + destruct (e + dub s <? -2).
+      * intros E. injection E as <-. apply prec_int_neg; [exact He|]. right. reflexivity.
+      * apply round_to_prec. exact He.
+  - intros f E. injection E as <-. unfold fract_asis. destruct (0 <=? e); [reflexivity|].
+    pose proof (split_internal_k p s e) as K. destruct (split_internal B dub false p s e) as [[hi lo] k]. exact K.
+  - intros t f E. injection E as E. unfold split_asis in E. destruct (Z.leb_spec 0 e) as [He|He].
+    + injection E as <- <-. split; [apply prec_int_nonneg; [exact He | reflexivity] | reflexivity].
+    + destruct (smaller_than_one dub s e).
+      * injection E as <- <-. split; [apply prec_int_neg; [exact He | right; reflexivity] | right; reflexivity].
+      * destruct (split_digits B s (- e)) as [hi lo]. injection E as <- <-.
+        split; [apply prec_int_neg; [exact He | left; reflexivity] | left; reflexivity].
+Qed.
+End Precisions.
+
 Example round_ops_gen_example :
   ceil_gen 10 (dlen 10) (round_fract_chk_rf 10 (round_fract 10)) 4 1234 (-3) = Ok (2, 0, 1) /\
   to_int_gen 10 (dlen 10) (round_fract_chk_rf 10 (round_fract 10)) MHalfEven 4 (-1500) (-3) = Ok (IInexact (-2) SubOne) /\
